@@ -501,12 +501,13 @@ type c19File struct {
 	missing bool // named on the command line but not created
 	isDir   bool // a directory of that name is created instead
 	lead    bool // text starts with an explicit "---"
+	json    bool // a JSON stream: documents separated by a line break, no "---"
 }
 
 func (f *c19File) text() string {
 	var sb strings.Builder
 	for i, d := range f.docs {
-		if i > 0 || f.lead {
+		if (i > 0 || f.lead) && !f.json {
 			sb.WriteString("---\n")
 		}
 		sb.WriteString(d.text)
